@@ -2090,6 +2090,268 @@ fn random_step(hst: &mut Hist, deleted_once: &mut bool) {
     }
 }
 
+//============ a remote parent and a remote publication server ================
+
+/// CA x of this instance has its parent rp in a SECOND krill instance and
+/// (after a move) its publication server there too; both are reached through
+/// the in-process transport, which can make the server unreachable or lose
+/// one reply. After EVERY synchronisation attempt the harness knows the
+/// outcome (return value of the call, or the task's completion) and compares:
+/// failure shown exactly when the latest attempt failed, with an error;
+/// success shown together with the entitlement the parent holds for x at that
+/// moment; the published list = what the second server holds for x after the
+/// last successful synchronisation; the remote parent's view of its child x
+/// (kept by the OTHER instance) = outcome of x's latest request; all of it
+/// again after a restart of this instance.
+fn remote_case(r: &mut Report, args: &Args, idx: u64, seed: u64) {
+    use kvh::hist::{self, Op};
+    let mut rng = Rng::new(seed ^ 0x19e0);
+    let dir = args.work.join(format!("remote{idx}"));
+    let _ = std::fs::remove_dir_all(&dir);
+    let mut w = World::create(WorldCfg::new(&dir));
+    let mut log: Vec<Value> = vec![];
+    let setup = [
+        Op::AddCa { ca: "top".into(), parent: "ta".into(),
+            asn: "AS65000-AS65010".into(), v4: "10.0.0.0/8".into(), v6: "".into() },
+        Op::Quiesce,
+        Op::RemoteChain { via: "top".into(), remote: "rp".into(), ca: "x".into(),
+            asn: "AS65007-AS65008".into(), v4: "10.7.0.0/16, 10.8.0.0/16".into(),
+            v6: "".into() },
+        Op::Quiesce, Op::SyncAll, Op::Quiesce,
+        Op::RoaDelta { ca: "x".into(), add: vec!["10.7.0.0/24 => 65007".into()],
+            remove: vec![] },
+        Op::Quiesce,
+    ];
+    for op in &setup {
+        let out = hist::apply(&mut w, op);
+        if !out.is_ok() {
+            r.inconclusive(format!("remote case set-up: {} {out:?}", op.kind()));
+            return
+        }
+    }
+    let mut migrated = false;
+    let mut entitlement = ("AS65007-AS65008".to_string(),
+                           "10.7.0.0/16, 10.8.0.0/16".to_string());
+    let mut roa_n = 1u32;
+    let steps = if args.thorough() { 40 } else { 14 };
+    let violation = |r: &mut Report, sig: &str, detail: String, log: &Vec<Value>| {
+        r.violation(sig, &detail, json!({"desc": {"part": "remote",
+            "hist": idx, "seed": seed}, "log": log}));
+    };
+    for step in 0..steps {
+        // --- something happens
+        let fault = rng.weighted(&[50, 25, 25]); // none, unreachable, reply lost
+        let what = rng.weighted(&[30, 25, 20, 10, 15]);
+        let mut desc = json!({"step": step});
+        match what {
+            0 => {
+                // the remote parent changes x's entitlement
+                entitlement = if entitlement.1.contains("10.8") {
+                    ("AS65007".to_string(), "10.7.0.0/16".to_string())
+                } else {
+                    ("AS65007-AS65008".to_string(),
+                     "10.7.0.0/16, 10.8.0.0/16".to_string())
+                };
+                let out = hist::apply(&mut w, &Op::RemoteChildUpdate {
+                    parent: "rp".into(), child: "x".into(),
+                    asn: entitlement.0.clone(), v4: entitlement.1.clone(),
+                    v6: "".into() });
+                desc["op"] = json!(format!("entitlement {entitlement:?}: {out:?}"));
+            }
+            1 => {
+                roa_n += 1;
+                let out = hist::apply(&mut w, &Op::RoaDelta { ca: "x".into(),
+                    add: vec![format!("10.7.{roa_n}.0/24 => 65007")], remove: vec![] });
+                desc["op"] = json!(format!("roa {roa_n}: {out:?}"));
+            }
+            2 if !migrated => {
+                let out = hist::apply(&mut w, &Op::RepoMigrate { ca: "x".into() });
+                let _ = w.quiesce();
+                let _ = hist::apply(&mut w, &Op::SyncAll);
+                let _ = w.quiesce();
+                let out2 = hist::apply(&mut w, &Op::RollActivate { ca: "x".into() });
+                let _ = w.quiesce();
+                let _ = hist::apply(&mut w, &Op::SyncAll);
+                let _ = w.quiesce();
+                migrated = out.is_ok() && out2.is_ok();
+                desc["op"] = json!(format!("migrate {out:?} {out2:?}"));
+            }
+            3 => {
+                let out = hist::apply(&mut w, &Op::RollInit { ca: "x".into() });
+                desc["op"] = json!(format!("roll_init {out:?}"));
+            }
+            _ => { desc["op"] = json!("nothing"); }
+        }
+        match fault {
+            1 => { let _ = hist::apply(&mut w, &Op::RemoteDown { down: true }); }
+            2 => { let _ = hist::apply(&mut w, &Op::LoseReply { nth: 0 }); }
+            _ => {}
+        }
+        desc["fault"] = json!((["none", "unreachable", "reply-lost"][fault]));
+        // --- one explicit parent synchronisation, outcome known
+        // (a synchronisation that has requests to deliver does that and
+        // does not ask for the entitlements; the list reply is then not
+        // "the last returned")
+        let pending_before = w.krill.ca_manager().get_ca(&h("x"))
+            .map(|c| c.has_pending_requests(&ph("rp"))).unwrap_or(true);
+        let res = {
+            let k = w.krill.clone();
+            catch(|| k.ca_manager().ca_sync_parent(
+                &h("x"), 0, &ph("rp"), &w.actor, &w.slow))
+        };
+        let ok = match res {
+            Err(p) => {
+                violation(r, "panic-in-remote-parent-synchronisation", p, &log);
+                return
+            }
+            Ok(Ok(_)) => true,
+            Ok(Err(e)) => { desc["err"] = json!(e.to_string()); false }
+        };
+        desc["sync_parent_ok"] = json!(ok);
+        log.push(desc.clone());
+        r.eval();
+        r.nontrivial(format!("remote-parent|{}|{}|ok={ok}",
+            desc["fault"].as_str().unwrap_or(""), what));
+        let st = parent_status(&w, "x", "rp");
+        let shown_ok = st.as_ref().and_then(|s| s.last_exchange.as_ref())
+            .map(|e| e.result.was_success());
+        if shown_ok != Some(ok) {
+            violation(r, if ok { "remote-parent:status-shows-failure-after-success" }
+                         else { "remote-parent:status-shows-success-after-failure" },
+                format!("x's synchronisation with rp {}; the status view shows {:?}",
+                    if ok { "succeeded" } else { "failed" },
+                    st.as_ref().and_then(|s| s.last_exchange.as_ref())
+                        .map(|e| serde_json::to_value(&e.result).unwrap())), &log);
+            return
+        }
+        if !ok {
+            let named = st.as_ref().and_then(|s| s.last_exchange.as_ref())
+                .and_then(|e| e.opt_failure()).map(|e| !e.msg.is_empty())
+                .unwrap_or(false);
+            r.eval();
+            if !named {
+                violation(r, "remote-parent:failure-without-error",
+                    "the failed exchange is shown without an error".into(), &log);
+                return
+            }
+        } else if let (Some(s), false) = (&st, pending_before) {
+            // the entitlement the parent holds for x right now
+            let want = kvh::world::rs(&entitlement.0, &entitlement.1, "");
+            r.eval();
+            if s.all_resources != want {
+                violation(r, "remote-parent:entitlements-not-the-last-returned",
+                    format!("rp entitles x to {want}; x's status shows {}",
+                            s.all_resources), &log);
+                return
+            }
+        }
+        // what the REMOTE parent shows for its child x: the outcome of x's
+        // most recent request that reached it
+        if fault != 1 {
+            if let Some(rw) = &w.remote {
+                let cs = rw.krill.ca_manager().get_ca_status(&h("rp")).ok()
+                    .and_then(|s| s.children().get(&ch("x")).cloned());
+                let shown = cs.as_ref().and_then(|c| c.last_exchange.as_ref())
+                    .map(|e| e.result.was_success());
+                r.eval();
+                // a lost reply was a request the parent answered
+                if shown != Some(true) {
+                    violation(r, "remote-parent:child-status-not-last-request",
+                        format!("rp served x's request; rp's status for x \
+                                 shows success={shown:?}"), &log);
+                    return
+                }
+            }
+        }
+        let _ = hist::apply(&mut w, &Op::RemoteDown { down: false });
+        // --- one explicit repository synchronisation (remote when migrated)
+        let fault2 = if migrated { rng.weighted(&[50, 25, 25]) } else { 0 };
+        match fault2 {
+            1 => { let _ = hist::apply(&mut w, &Op::RemoteDown { down: true }); }
+            2 => { let _ = hist::apply(&mut w, &Op::LoseReply { nth: 0 }); }
+            _ => {}
+        }
+        let res = {
+            let k = w.krill.clone();
+            catch(|| k.ca_manager().cas_repo_sync_single(&h("x"), 0, &w.slow))
+        };
+        let rok = match res {
+            Err(p) => {
+                violation(r, "panic-in-remote-repository-synchronisation", p, &log);
+                return
+            }
+            Ok(Ok(_)) => true,
+            Ok(Err(e)) => {
+                log.push(json!({"step": step, "repo_err": e.to_string()}));
+                false
+            }
+        };
+        log.push(json!({"step": step, "repo_sync_ok": rok, "migrated": migrated,
+                        "fault": (["none", "unreachable", "reply-lost"][fault2])}));
+        let _ = hist::apply(&mut w, &Op::RemoteDown { down: false });
+        r.eval();
+        r.nontrivial(format!("remote-repo|migrated={migrated}|{fault2}|ok={rok}"));
+        let rs_ = repo_status(&w, "x");
+        let shown = rs_.as_ref().and_then(|s| s.last_exchange.as_ref())
+            .map(|e| e.result.was_success());
+        if shown != Some(rok) {
+            violation(r, if rok { "remote-repo:status-shows-failure-after-success" }
+                         else { "remote-repo:status-shows-success-after-failure" },
+                format!("x's repository synchronisation {}; the status shows \
+                         success={shown:?}", if rok { "succeeded" } else { "failed" }),
+                &log);
+            return
+        }
+        if rok {
+            // the published list = what the server holds for x
+            let files = w.publisher_files();
+            let base = if migrated { format!("rsync://{}/repo/x/", kvh::remote::HOST2) }
+                       else { format!("rsync://{}/repo/x/", kvh::world::HOST) };
+            let held: BTreeSet<String> = files.keys()
+                .filter(|u| u.starts_with(&base)).cloned().collect();
+            let listed: BTreeSet<String> = rs_.as_ref().map(|s| {
+                s.published.iter().map(|f| f.uri.to_string())
+                    .filter(|u| u.starts_with(&base)).collect()
+            }).unwrap_or_default();
+            r.eval();
+            if held != listed {
+                let a: Vec<&String> = held.difference(&listed).take(3).collect();
+                let b: Vec<&String> = listed.difference(&held).take(3).collect();
+                violation(r, "remote-repo:published-list-differs-from-server",
+                    format!("after a successful synchronisation: held but not \
+                             listed {a:?}; listed but not held {b:?}"), &log);
+                return
+            }
+        }
+        // --- restart of this instance every few steps: unchanged reports
+        if step % 5 == 4 {
+            let before = (
+                serde_json::to_value(parent_status(&w, "x", "rp")).unwrap(),
+                serde_json::to_value(repo_status(&w, "x")).unwrap(),
+            );
+            w = w.restart();
+            let after = (
+                serde_json::to_value(parent_status(&w, "x", "rp")).unwrap(),
+                serde_json::to_value(repo_status(&w, "x")).unwrap(),
+            );
+            r.eval();
+            r.count("remote_restart_comparisons", 1);
+            if before != after {
+                violation(r, "remote:status-differs-after-restart",
+                    format!("before {} after {}",
+                        before.0.to_string().chars().take(300).collect::<String>(),
+                        after.0.to_string().chars().take(300).collect::<String>()),
+                    &log);
+                return
+            }
+            let _ = w.quiesce();
+        }
+    }
+    r.count("remote_cases", 1);
+    drop(w);
+    let _ = std::fs::remove_dir_all(&dir);
+}
+
 fn main() {
     let args = Args::parse();
     let mut r = Report::new("C19", &args);
@@ -2114,6 +2376,9 @@ fn main() {
         let scenario = (args.shard + n) % 6;
         let seed = args.shard_seed().wrapping_mul(7919).wrapping_add(idx);
         run_history(&mut r, &args, idx, seed, scenario);
+        if n % 3 == 0 && r.within_budget() {
+            remote_case(&mut r, &args, idx, seed);
+        }
         n += 1;
         if !r.within_budget() { break }
         let _ = std::fs::write(
